@@ -6,7 +6,8 @@
 //! fault kind, the session pair is run again with the store mutated immediately before the k-th
 //! call of that side (the mutation goes through the real store API: `prune_entries`,
 //! `delete_operation`, `insert_operation`). A grammar monitor reads every message handed to each
-//! sink. Stage 2 puts the real `TopicLogSync` with live mode on top and checks that no `Sync(_)`
+//! sink; at the pair's final state (both returned / stalled for good / a side loops without awaiting)
+//! every side that did not fail must have sent exactly one `done`. Stage 2 puts the real `TopicLogSync` with live mode on top and checks that no `Sync(_)`
 //! message follows a side's `Sync(Done)` and that no live phase fails on an unexpected message.
 //! Stores are real in-memory SQLite databases, restored from the model after every faulted run.
 
@@ -33,12 +34,23 @@ use crate::model::{Ext, GenCfg, L, LogKey, Op, World, build_store, delete_ops, g
 use crate::pool::{WorkerCtx, default_workers, run_cases};
 use crate::session::{PairCfg, full, kind, run_pair};
 
-const KINDS: [&str; 5] = ["prune-whole-log", "prune-prefix", "delete-one-operation", "append-operations", "prune-all-announced-logs-the-peer-lacks"];
+const KINDS: [&str; 6] = [
+    "prune-whole-log",
+    "prune-prefix",
+    "delete-one-operation",
+    "append-operations",
+    "prune-all-announced-logs-the-peer-lacks",
+    "append-then-prune-everything-up-to-the-announced-height",
+];
 const TOPIC: [u8; 32] = [0x20; 32];
 const SIDES: [&str; 2] = ["A", "B"];
 
 /// Grammar monitor. Returns `(signature, explanation)` for the first deviation.
-fn grammar(kinds: &[&'static str], returned_ok: bool) -> Option<(&'static str, String)> {
+///
+/// `settled`: `Some(description)` when the pair has reached a final state (both returned, or no
+/// side can ever run again / a side loops without awaiting) and this side did not return an error:
+/// then exactly one `done` must have been sent.
+fn grammar(kinds: &[&'static str], settled: Option<&str>) -> Option<(&'static str, String)> {
     let mut done_at: Option<usize> = None;
     for (i, k) in kinds.iter().enumerate() {
         if let Some(d) = done_at {
@@ -61,8 +73,8 @@ fn grammar(kinds: &[&'static str], returned_ok: bool) -> Option<(&'static str, S
             done_at = Some(i);
         }
     }
-    if returned_ok && done_at.is_none() {
-        return Some(("C20:no-done", format!("the session returned Ok without ever sending `done`: {kinds:?}")));
+    if let (Some(state), None) = (settled, done_at) {
+        return Some(("C20:no-done-sent", format!("`done` was never sent although the session pair has reached its final state ({state}): {kinds:?}")));
     }
     None
 }
@@ -140,6 +152,21 @@ fn pick_fault(world: &World, r: usize, kind: usize, k: u64, needed: &[LogKey], a
                 describe: format!("prune every log the peer lacks something of ({} log(s)) to empty", needed.len()),
             })
         }
+        5 => {
+            // The announced range (.., end] becomes empty while the log itself lives on.
+            let m = &world.masters[&target];
+            let more: Vec<Op> = m.ops.iter().filter(|o| o.header.seq_num > seg.end).take(2).cloned().collect();
+            if more.is_empty() {
+                return None;
+            }
+            let hashes = more.iter().map(|o| o.hash).collect();
+            mk(
+                vec![Fault::Insert { ops: more }, Fault::Prune { author, log: target.1, until: seg.end + 1 }],
+                vec![target],
+                hashes,
+                format!("append to author {} log {} and prune_entries(until {}) — the announced range is emptied, the log is not", target.0, target.1, seg.end + 1),
+            )
+        }
         _ => None,
     }
 }
@@ -171,6 +198,8 @@ struct PairOut {
     inconclusive: Vec<String>,
     fault_points: u64,
     stalls: u64,
+    spins: u64,
+    one_range_emptied: u64,
     errors: u64,
     topic_sessions: u64,
     sample: Option<Value>,
@@ -261,7 +290,7 @@ fn pair(ctx: &WorkerCtx, seed: u64, n: u64, topic_stage: bool) -> PairOut {
     }
     let kinds_of = |sent: &Vec<(u64, u64, LogSyncMessage<L>)>| -> Vec<&'static str> { sent.iter().map(|(_, _, m)| kind(m)).collect() };
     for side in 0..2 {
-        if let Some((sig, what)) = grammar(&kinds_of(&dry.sent[side]), true) {
+        if let Some((sig, what)) = grammar(&kinds_of(&dry.sent[side]), Some("returned Ok")) {
             out.findings.push(Finding { sig, what: format!("without any fault: {what}"), witness: base_witness.clone() });
         }
     }
@@ -353,18 +382,33 @@ fn pair(ctx: &WorkerCtx, seed: u64, n: u64, topic_stage: bool) -> PairOut {
         w["store_calls_A"] = json!(ctl[0].log.lock().unwrap().iter().map(call_str).collect::<Vec<_>>());
         w["store_calls_B"] = json!(ctl[1].log.lock().unwrap().iter().map(call_str).collect::<Vec<_>>());
         w["results"] = json!(run.result.iter().map(|r| match r { None => "pending".into(), Some(Ok(_)) => "Ok".into(), Some(Err(e)) => format!("Err({e})") }).collect::<Vec<String>>());
-        match &run.end {
-            End::Completed => {}
+        let final_state: Option<String> = match &run.end {
+            End::Completed => Some("both sides returned".into()),
             End::Stalled { snap, .. } => {
                 out.stalls += 1;
-                w["stalled_state"] = snap.json();
+                w["final_state"] = snap.json();
+                Some(format!("stalled for good: {}", crate::drive::stall_shape(snap, None).0))
+            }
+            End::Spin { snap, span_entries_without_io } => {
+                out.spins += 1;
+                w["final_state"] = snap.json();
+                w["span_entries_without_transport_or_store_call_in_one_poll"] = json!(span_entries_without_io);
+                Some(format!("a side loops without awaiting: {}", crate::drive::stall_shape(snap, None).0))
             }
             End::Watchdog { snap } => {
                 out.inconclusive.push(format!("watchdog fired in a faulted session: {}", snap.json()));
+                None
             }
-        }
+        };
         if run.result.iter().any(|r| matches!(r, Some(Err(_)))) {
             out.errors += 1;
+        }
+        for r in 0..2 {
+            if let Some(p) = &picks[r] {
+                if fired && matches!(plan.kind, 0 | 5) && needed[r].len() >= 2 && p.touched.iter().all(|t| needed[r].contains(t)) {
+                    out.one_range_emptied += 1;
+                }
+            }
         }
         if fired && told {
             let key = format!("{:?}|{}|{}|{:?}", world.shape_key(), plan.side, plan.kind, plan.k);
@@ -374,8 +418,9 @@ fn pair(ctx: &WorkerCtx, seed: u64, n: u64, topic_stage: bool) -> PairOut {
         }
         for side in 0..2 {
             let ks = kinds_of(&run.sent[side]);
-            let ok = matches!(run.result[side], Some(Ok(_)));
-            if let Some((sig, what)) = grammar(&ks, ok) {
+            let errored = matches!(run.result[side], Some(Err(_)));
+            let settled = if errored { None } else { final_state.as_deref() };
+            if let Some((sig, what)) = grammar(&ks, settled) {
                 // One witness per (pair, signature, side-config, kind) is plenty.
                 let shape = format!("{sig}|{}|{}|{side}", plan.side, plan.kind);
                 let first = shapes_seen.insert(shape);
@@ -429,8 +474,30 @@ fn pair(ctx: &WorkerCtx, seed: u64, n: u64, topic_stage: bool) -> PairOut {
                 w["sent_by_A"] = json!(t.sent[0]);
                 w["sent_by_B"] = json!(t.sent[1]);
                 w["results"] = json!(t.results);
-                match t.end {
+                match &t.end {
                     TopicEnd::Completed => {}
+                    TopicEnd::Settled(state) => {
+                        // Final state without completion: a side that did not fail must have sent
+                        // its `sync:done`.
+                        w["final_state"] = json!(state);
+                        let mut judged = false;
+                        for s in 0..2 {
+                            if !t.sent[s].iter().any(|m| m == "sync:done") && !t.results[s].starts_with("Err") {
+                                judged = true;
+                                let mut w2 = w.clone();
+                                w2["offending_side"] = json!(SIDES[s]);
+                                out.findings.push(Finding {
+                                    sig: "C20:no-done-sent",
+                                    what: format!("TopicLogSync side {} never sent `sync:done` although the pair reached its final state ({state}): {:?}", SIDES[s], t.sent[s]),
+                                    witness: w2,
+                                });
+                            }
+                        }
+                        if !judged {
+                            out.inconclusive.push(format!("TopicLogSync pair did not finish: {state}"));
+                        }
+                        continue;
+                    }
                     TopicEnd::Other(s) => {
                         out.inconclusive.push(format!("TopicLogSync pair did not finish: {s}"));
                         continue;
@@ -478,6 +545,8 @@ fn pair(ctx: &WorkerCtx, seed: u64, n: u64, topic_stage: bool) -> PairOut {
 
 enum TopicEnd {
     Completed,
+    /// Final state reached without both sides returning (stalled for good / a side spins).
+    Settled(String),
     Other(String),
 }
 
@@ -535,7 +604,8 @@ fn run_topic_pair(ctx: &WorkerCtx, raw: &[SqliteStore; 2], arm: [Option<(u64, Ve
         unexpected: [unexpected(&out.a), unexpected(&out.b)],
         end: match out.end {
             End::Completed => TopicEnd::Completed,
-            End::Stalled { snap, .. } => TopicEnd::Other(format!("stalled: {}", snap.json())),
+            End::Stalled { snap, .. } => TopicEnd::Settled(format!("stalled for good: {}", snap.json())),
+            End::Spin { snap, .. } => TopicEnd::Settled(format!("a side loops without awaiting: {}", snap.json())),
             End::Watchdog { snap } => TopicEnd::Other(format!("watchdog: {}", snap.json())),
         },
     }
@@ -546,7 +616,8 @@ pub fn run(args: &Args) {
         args,
         "seeded replica pairs (2-3 authors x 1-2 logs of 1-6 operations, pruned prefixes, absent logs); per pair a fault-free dry run, \
          then one session pair per (side in {A,B,both}) x (every store-call index k the dry run reached) x (fault kind in {prune whole log, \
-         prune prefix, delete one operation, append operations, prune every announced log the peer lacks}); stage 2: TopicLogSync + live \
+         prune prefix, delete one operation, append operations, prune every announced log the peer lacks, append-then-prune so that the \
+         announced range is empty but the log is not}); stage 2: TopicLogSync + live \
          mode with the last fault kind at every k. Non-trivial = the fault fired and changed a log the side had announced in its Have; \
          distinct = (pair shape, side, kind, k)",
         if args.tier == Tier::Quick { 2_000 } else { 20_000 },
@@ -579,7 +650,9 @@ pub fn run(args: &Args) {
             *t.entry("log_sync_sessions").or_default() += p.sessions;
             *t.entry("topic_log_sync_sessions").or_default() += p.topic_sessions;
             *t.entry("fault_points (store calls reached in dry runs)").or_default() += p.fault_points;
-            *t.entry("faulted_sessions_that_stalled (recorded, not judged)").or_default() += p.stalls;
+            *t.entry("faulted_sessions_that_stalled (judged only for a missing done)").or_default() += p.stalls;
+            *t.entry("faulted_sessions_where_a_side_spun_without_yield (judged only for a missing done)").or_default() += p.spins;
+            *t.entry("faulted_sessions_with_one_needed_range_emptied_while_another_kept_operations").or_default() += p.one_range_emptied;
             *t.entry("faulted_sessions_with_an_error_result (recorded, not judged)").or_default() += p.errors;
             *t.entry("sessions_where_a_side_sent_done_in_place_of_pre_sync_although_the_peer_lacked_operations").or_default() += p.double_done_precondition;
             started.elapsed() < budget
